@@ -165,6 +165,8 @@ type env struct {
 	// the next request carries the headers of a websocket upgrade
 	upgrade bool
 	spoof   bool // the request also carries headers with which a client claims a role for itself
+	// when set, the configured admin token of the next start (the operator rotated it)
+	adminOverride string
 }
 
 func isAPI(path string) bool { return path == prefix || strings.HasPrefix(path, prefix+"/") }
@@ -790,6 +792,96 @@ func (e *env) revokeCommitRefused(routes []gin.RouteInfo) {
 	}
 }
 
+// revokeWhileStoreAway: the tokens table is away for the duration of one revocation request (the DELETE and any look-up
+// made while serving it fail) and back afterwards. If the revocation was acknowledged with 200 the token must be refused
+// from then on; any other answer leaves the token as it was.
+func (e *env) revokeWhileStoreAway(routes []gin.RouteInfo) {
+	r := e.r
+	t, err := e.st.Svc.Tokens.GenerateToken()
+	if err != nil {
+		r.Violate("harness|fixture-token", err.Error(), e.case0, nil)
+		return
+	}
+	tok := t.Token
+	defer func() { _ = e.st.Svc.Tokens.DeleteToken(tok) }()
+	if _, err := e.st.DB.Exec(`ALTER TABLE tokens RENAME TO tokens_verif_away`); err != nil {
+		r.Violate("harness|rename-tokens", err.Error(), e.case0, nil)
+		return
+	}
+	w := e.st.HTTP(http.MethodDelete, prefix+"/access/"+tok, nil, rig.Admin())
+	if _, err := e.st.DB.Exec(`ALTER TABLE tokens_verif_away RENAME TO tokens`); err != nil {
+		r.Violate("harness|rename-tokens-back", err.Error(), e.case0, nil)
+		return
+	}
+	r.Count("revocations_while_the_token_store_was_away", 1)
+	r.Count(fmt.Sprintf("revocations_while_the_token_store_was_away_answered_%dxx", w.Code/100), 1)
+	if w.Code != http.StatusOK {
+		return
+	}
+	for _, rt := range routes {
+		if !isAPI(rt.Path) {
+			continue
+		}
+		fs := e.fillings(rt)
+		if len(fs) == 0 {
+			continue
+		}
+		f := fs[0]
+		routeSig := rt.Method + " " + rt.Path
+		wa := e.do(rt.Method, f.target, f.body, cred{class: clRevoked, has: true, value: "Bearer " + tok, shape: "Bearer <token whose revocation was acknowledged>"})
+		if wa.Code != http.StatusUnauthorized {
+			r.Violate("revocation-acknowledged-but-token-accepted|store-away", fmt.Sprintf("DELETE %s/access/:token answered 200 although the tokens table was unavailable while it was served; %s with that token then answered %d, expected 401", prefix, routeSig, wa.Code),
+				fmt.Sprintf("%s/%s/revoked-while-store-away", e.case0, routeSig), map[string]any{"config": e.p.String(), "request": rt.Method + " " + f.target, "status": wa.Code, "token_row_present": e.tokenInDB(tok)})
+			return
+		}
+	}
+}
+
+// rotatedAdminToken: the operator changes http.auth_token and restarts the service on the same database. The former admin
+// token is then neither the configured admin token nor an issued token: 401 on every API route; the new one is admin.
+func (e *env) rotatedAdminToken(routes []gin.RouteInfo) {
+	r := e.r
+	const rotated = "verif-admin-token-after-rotation-42"
+	e.adminOverride = rotated
+	defer func() { e.adminOverride = "" }()
+	if err := e.st.Restart(); err != nil {
+		r.Violate("harness|restart-with-rotated-admin-token", err.Error(), e.case0, nil)
+		return
+	}
+	r.Count("restarts_with_a_rotated_admin_token", 1)
+	wn := e.do(http.MethodGet, prefix+"/access", nil, cred{class: clAdmin, has: true, value: "Bearer " + rotated})
+	if wn.Code != http.StatusOK {
+		r.Violate("rotated-admin-token|new-token-refused", fmt.Sprintf("after a restart with http.auth_token changed, GET %s/access with the new admin token answered %d %s", prefix, wn.Code, clip(wn.Body.String())), e.case0+"/rotated-admin", map[string]any{"config": e.p.String()})
+		return
+	}
+	for _, rt := range routes {
+		if !isAPI(rt.Path) {
+			continue
+		}
+		fs := e.fillings(rt)
+		if len(fs) == 0 {
+			continue
+		}
+		f := fs[0]
+		routeSig := rt.Method + " " + rt.Path
+		before, _ := tableDigests(e.st)
+		wa := e.do(rt.Method, f.target, f.body, cred{class: clUnknown, has: true, value: "Bearer " + rig.AdminToken, shape: "Bearer <former admin token>"})
+		after, _ := tableDigests(e.st)
+		r.Count("requests_with_the_former_admin_token", 1)
+		changed := false
+		for k, v := range before {
+			if after[k] != v {
+				changed = true
+			}
+		}
+		if wa.Code != http.StatusUnauthorized || changed {
+			r.Violate("former-admin-token-accepted|"+routeSig, fmt.Sprintf("after a restart with http.auth_token changed, %s with the former admin token answered %d (tables changed: %v), expected 401 and no change", routeSig, wa.Code, changed),
+				fmt.Sprintf("%s/%s/former-admin-token", e.case0, routeSig), map[string]any{"config": e.p.String(), "request": rt.Method + " " + f.target, "status": wa.Code, "former_admin_token_row_present": e.tokenInDB(rig.AdminToken)})
+			return
+		}
+	}
+}
+
 // failingTokenStore: while the token look-up itself fails inside the SQL layer (the tokens table is renamed away, so
 // every SELECT errors), a request whose token is NOT known to be valid must still be refused before any handler logic
 // runs: 401 or a 5xx are acceptable, reaching the handler is not (fail closed).
@@ -879,6 +971,9 @@ func (e *env) runPoint() {
 			c.HTTP.UseAuth = e.p.Auth
 			c.HTTP.ProfilingEndpointsEnabled = e.p.Prof
 			c.Metrics.Enabled = e.p.Metrics
+			if e.adminOverride != "" {
+				c.HTTP.AuthToken = e.adminOverride
+			}
 		},
 		WrapHeaders: deco.Wrap(&deco.Hooks{Before: func(op string, write bool, arg string) error {
 			e.calls.headers++
@@ -996,6 +1091,10 @@ func (e *env) runPoint() {
 	if e.p.Auth {
 		e.failingTokenStore(routes)
 		e.revokeCommitRefused(routes)
+		e.revokeWhileStoreAway(routes)
+		if !e.p.Metrics {
+			e.rotatedAdminToken(routes)
+		}
 	}
 	r.Count("configurations", 1)
 	r.Count("api_routes_enumerated", int64(nAPI))
